@@ -39,6 +39,9 @@ M = [
  ("m41_placements_as_u8", "C05", "C05", "src/io/slippi/de.rs", "		let placements = [r.read_i8()?, r.read_i8()?, r.read_i8()?, r.read_i8()?];", "		let placements = [r.read_i8()?, r.read_i8()?, r.read_i8()?, (r.read_u8()? & 0x7f) as i8];"),
  ("m42_percent_gate_1_3", "C03", "C03", "src/frame/mutable.rs", None, None),
  ("m43_unknown_event_counted_twice", "C08", "C08 C12", "src/io/slippi/de.rs", "	let event = Event::try_from(code).ok();\n	if let Some(event) = event {", "	let event = Event::try_from(code).ok();\n	if event.is_none() && size == 7 {\n		state.bytes_read += 1;\n	}\n	if let Some(event) = event {"),
+ ("m45_frame_count_u16", "C01", "C01 C17", "src/io/slippi/ser.rs", "		frames: len.try_into().unwrap(),", "		frames: (len as u16) as u32,"),
+ ("m46_item_count_u16", "C01", "C01 C04", "src/io/slippi/ser.rs", "		items: frames.item.as_ref().map_or(0, |i| i.id.len() as u32),", "		items: frames.item.as_ref().map_or(0, |i| i.id.len() as u16 as u32),"),
+ ("m47_gecko_size_wraps_once", "C01", "C01 C02", "src/io/slippi/ser.rs", "						sizes.push(Event::GeckoCodes, codes.actual_size as u16 as usize);", "						sizes.push(Event::GeckoCodes, (codes.actual_size.min(131071)) as u16 as usize);"),
  ("m44_splitter_counts_512", "C12", "C12 C10 C01", "src/io/slippi/de.rs", "			buf.clear();\n			buf.append(&mut state.split_accumulator.raw);", "			buf.clear();\n			buf.append(&mut state.split_accumulator.raw);\n			state.split_accumulator.actual_size = state.split_accumulator.actual_size.min(65535 * 3);"),
 ]
 def main():
